@@ -30,10 +30,63 @@ use std::collections::HashMap;
 #[path = "c06_gen.rs"]
 mod gen_impl;
 pub use gen_impl::gen;
+#[path = "c06_api.rs"]
+pub mod api;
+use api::{complain, hit, hit_op};
 
 pub type RT<T, const D: usize> = RecordTensor<'static, T, Tensor<(T, Index), D>, D>;
 pub type RM<T> = RecordMatrix<'static, T, Matrix<(T, Index)>>;
 pub type Sh = Vec<(&'static str, usize)>;
+
+const RT_: &str = "RecordTensor<T,S,D>";
+const RM_: &str = "RecordMatrix<T,S>";
+const CLONE_: &str = "impl~Clone~for~RecordContainer<T,S,D>::clone";
+const HISTORY_: &str = "RecordContainer<T,S,D>::history";
+
+fn hit2(cont: &str, method: &str) {
+    hit(&format!("{}::{}", cont, method));
+}
+
+/// `RecordTensor::from_existing`, recorded
+fn rt_from_existing<T, S, const D: usize>(h: Option<&'static WengertList<T>>, v: TensorView<(T, Index), S, D>) -> RecordTensor<'static, T, S, D>
+where
+    T: Numeric + Primitive,
+    S: TensorRef<(T, Index), D>,
+{
+    hit("RecordTensor<T,S,D>::from_existing");
+    RecordTensor::from_existing(h, v)
+}
+
+/// `RecordMatrix::from_existing`, recorded
+fn rm_from_existing<T, S>(h: Option<&'static WengertList<T>>, v: MatrixView<(T, Index), S>) -> RecordMatrix<'static, T, S>
+where
+    T: Numeric + Primitive,
+    S: MatrixRef<(T, Index)> + NoInteriorMutability,
+{
+    hit("RecordMatrix<T,S>::from_existing");
+    RecordMatrix::from_existing(h, v)
+}
+
+/// an iterator emptied step by step: `len()` / `size_hint()` are exact at every step and the
+/// iterator stays empty (`FusedIterator`)
+fn drain_checked<I: ExactSizeIterator>(mut it: I, what: &str) -> Vec<I::Item> {
+    let n = it.len();
+    if it.size_hint() != (n, Some(n)) {
+        complain(format!("{}:size_hint-differs-from-len", what));
+    }
+    let mut out = vec![];
+    while let Some(x) = it.next() {
+        out.push(x);
+        let left = n - out.len().min(n);
+        if it.len() != left || it.size_hint() != (left, Some(left)) {
+            complain(format!("{}:len-not-exact-after-{}-of-{}", what, out.len(), n));
+        }
+    }
+    if it.next().is_some() || it.len() != 0 {
+        complain(format!("{}:not-fused", what));
+    }
+    out
+}
 
 // ---------------------------------------------------------------------------------------------
 // views
@@ -190,42 +243,52 @@ pub fn view_of(shape: &[(&'static str, usize)], spec: &ViewSpec, is_matrix: bool
 macro_rules! tview {
     ($D:literal, $base:expr, $spec:expr, $v:ident => $body:expr) => {{
         let base = $base;
+        hit(HISTORY_);
         let h = base.history();
+        hit("RecordTensor<T,S,D>::shape");
         let shape = base.shape();
         match $spec {
             ViewSpec::Own => {
+                hit(CLONE_);
                 let $v = base.clone();
                 $body
             }
             ViewSpec::Ref => {
-                let $v = RecordTensor::from_existing(h, TensorView::from(base));
+                let $v = rt_from_existing(h, TensorView::from(base));
                 $body
             }
             ViewSpec::Acc(p) => {
                 let dims: [Dimension; $D] = std::array::from_fn(|k| shape[p[k]].0);
                 // `index()` for the source order, `index_by` otherwise
-                let access = if (0..$D).all(|k| p[k] == k) { base.index() } else { base.index_by(dims) };
-                let $v = RecordTensor::from_existing(h, TensorView::from(access));
+                let access = if (0..$D).all(|k| p[k] == k) {
+                    hit("RecordTensor<T,S,D>::index");
+                    base.index()
+                } else {
+                    hit("RecordTensor<T,S,D>::index_by");
+                    base.index_by(dims)
+                };
+                let $v = rt_from_existing(h, TensorView::from(access));
                 $body
             }
             ViewSpec::Rn(n) => {
                 let dims: [Dimension; $D] = std::array::from_fn(|k| n[k]);
+                hit("RecordTensor<T,S,D>::rename_view");
                 let $v = base.clone().rename_view(dims);
                 $body
             }
             ViewSpec::Tr(p) => {
                 let dims: [Dimension; $D] = std::array::from_fn(|k| shape[p[k]].0);
-                let $v = RecordTensor::from_existing(h, TensorView::from(TensorTranspose::from(base, dims)));
+                let $v = rt_from_existing(h, TensorView::from(TensorTranspose::from(base, dims)));
                 $body
             }
             ViewSpec::Rg(r) => {
                 let ranges: [Option<std::ops::Range<usize>>; $D] = std::array::from_fn(|k| Some(r[k].0..r[k].0 + r[k].1));
-                let $v = RecordTensor::from_existing(h, TensorView::from(TensorRange::from_all(base, ranges).expect("range")));
+                let $v = rt_from_existing(h, TensorView::from(TensorRange::from_all(base, ranges).expect("range")));
                 $body
             }
             ViewSpec::Rev(f) => {
                 let names: Vec<Dimension> = (0..$D).filter(|&k| f[k]).map(|k| shape[k].0).collect();
-                let $v = RecordTensor::from_existing(h, TensorView::from(TensorReverse::from(base, &names)));
+                let $v = rt_from_existing(h, TensorView::from(TensorReverse::from(base, &names)));
                 $body
             }
         }
@@ -238,10 +301,13 @@ macro_rules! tview {
 macro_rules! tview_mut {
     ($D:literal, $base:expr, $spec:expr, $v:ident => $body:expr) => {{
         let base = $base;
+        hit(HISTORY_);
         let h = base.history();
+        hit("RecordTensor<T,S,D>::shape");
         let shape = base.shape();
         match $spec {
             ViewSpec::Own => {
+                hit(CLONE_);
                 let $v = base.clone();
                 let r = $body;
                 r.map(|n| {
@@ -249,31 +315,31 @@ macro_rules! tview_mut {
                 })
             }
             ViewSpec::Ref => {
-                let $v = RecordTensor::from_existing(h, TensorView::from(&mut *base));
+                let $v = rt_from_existing(h, TensorView::from(&mut *base));
                 let r = $body;
                 r.map(|_| ())
             }
             ViewSpec::Acc(p) => {
                 let dims: [Dimension; $D] = std::array::from_fn(|k| shape[p[k]].0);
-                let $v = RecordTensor::from_existing(h, TensorView::from(TensorAccess::from(&mut *base, dims)));
+                let $v = rt_from_existing(h, TensorView::from(TensorAccess::from(&mut *base, dims)));
                 let r = $body;
                 r.map(|_| ())
             }
             ViewSpec::Tr(p) => {
                 let dims: [Dimension; $D] = std::array::from_fn(|k| shape[p[k]].0);
-                let $v = RecordTensor::from_existing(h, TensorView::from(TensorTranspose::from(&mut *base, dims)));
+                let $v = rt_from_existing(h, TensorView::from(TensorTranspose::from(&mut *base, dims)));
                 let r = $body;
                 r.map(|_| ())
             }
             ViewSpec::Rg(r_) => {
                 let ranges: [Option<std::ops::Range<usize>>; $D] = std::array::from_fn(|k| Some(r_[k].0..r_[k].0 + r_[k].1));
-                let $v = RecordTensor::from_existing(h, TensorView::from(TensorRange::from_all(&mut *base, ranges).expect("range")));
+                let $v = rt_from_existing(h, TensorView::from(TensorRange::from_all(&mut *base, ranges).expect("range")));
                 let r = $body;
                 r.map(|_| ())
             }
             ViewSpec::Rev(f) => {
                 let names: Vec<Dimension> = (0..$D).filter(|&k| f[k]).map(|k| shape[k].0).collect();
-                let $v = RecordTensor::from_existing(h, TensorView::from(TensorReverse::from(&mut *base, &names)));
+                let $v = rt_from_existing(h, TensorView::from(TensorReverse::from(&mut *base, &names)));
                 let r = $body;
                 r.map(|_| ())
             }
@@ -285,25 +351,27 @@ macro_rules! tview_mut {
 macro_rules! mview {
     ($base:expr, $spec:expr, $v:ident => $body:expr) => {{
         let base = $base;
+        hit(HISTORY_);
         let h = base.history();
         match $spec {
             ViewSpec::Own => {
+                hit(CLONE_);
                 let $v = base.clone();
                 $body
             }
             ViewSpec::Ref => {
-                let $v = RecordMatrix::from_existing(h, MatrixView::from(base));
+                let $v = rm_from_existing(h, MatrixView::from(base));
                 $body
             }
             ViewSpec::Rg(r) => {
-                let $v = RecordMatrix::from_existing(
+                let $v = rm_from_existing(
                     h,
                     MatrixView::from(MatrixRange::from(base, r[0].0..r[0].0 + r[0].1, r[1].0..r[1].0 + r[1].1)),
                 );
                 $body
             }
             ViewSpec::Rev(f) => {
-                let $v = RecordMatrix::from_existing(
+                let $v = rm_from_existing(
                     h,
                     MatrixView::from(MatrixReverse::from(base, Reverse { rows: f[0], columns: f[1] })),
                 );
@@ -317,9 +385,11 @@ macro_rules! mview {
 macro_rules! mview_mut {
     ($base:expr, $spec:expr, $v:ident => $body:expr) => {{
         let base = $base;
+        hit(HISTORY_);
         let h = base.history();
         match $spec {
             ViewSpec::Own => {
+                hit(CLONE_);
                 let $v = base.clone();
                 let r = $body;
                 r.map(|n| {
@@ -327,12 +397,12 @@ macro_rules! mview_mut {
                 })
             }
             ViewSpec::Ref => {
-                let $v = RecordMatrix::from_existing(h, MatrixView::from(&mut *base));
+                let $v = rm_from_existing(h, MatrixView::from(&mut *base));
                 let r = $body;
                 r.map(|_| ())
             }
             ViewSpec::Rg(r_) => {
-                let $v = RecordMatrix::from_existing(
+                let $v = rm_from_existing(
                     h,
                     MatrixView::from(MatrixRange::from(&mut *base, r_[0].0..r_[0].0 + r_[0].1, r_[1].0..r_[1].0 + r_[1].1)),
                 );
@@ -340,7 +410,7 @@ macro_rules! mview_mut {
                 r.map(|_| ())
             }
             ViewSpec::Rev(f) => {
-                let $v = RecordMatrix::from_existing(
+                let $v = rm_from_existing(
                     h,
                     MatrixView::from(MatrixReverse::from(&mut *base, Reverse { rows: f[0], columns: f[1] })),
                 );
@@ -355,15 +425,18 @@ macro_rules! mview_mut {
 macro_rules! tview_basic {
     ($D:literal, $base:expr, $spec:expr, $v:ident => $body:expr) => {{
         let base = $base;
+        hit(HISTORY_);
         let h = base.history();
+        hit("RecordTensor<T,S,D>::shape");
         let shape = base.shape();
         match $spec {
             ViewSpec::Own => {
+                hit(CLONE_);
                 let $v = base.clone();
                 $body
             }
             ViewSpec::Ref => {
-                let $v = RecordTensor::from_existing(h, TensorView::from(base));
+                let $v = rt_from_existing(h, TensorView::from(base));
                 $body
             }
             _ => unreachable!("harness: view kind not dispatched here"),
@@ -374,34 +447,43 @@ macro_rules! tview_basic {
 macro_rules! tview_fancy {
     ($D:literal, $base:expr, $spec:expr, $v:ident => $body:expr) => {{
         let base = $base;
+        hit(HISTORY_);
         let h = base.history();
+        hit("RecordTensor<T,S,D>::shape");
         let shape = base.shape();
         match $spec {
             ViewSpec::Acc(p) => {
                 let dims: [Dimension; $D] = std::array::from_fn(|k| shape[p[k]].0);
                 // `index()` for the source order, `index_by` otherwise
-                let access = if (0..$D).all(|k| p[k] == k) { base.index() } else { base.index_by(dims) };
-                let $v = RecordTensor::from_existing(h, TensorView::from(access));
+                let access = if (0..$D).all(|k| p[k] == k) {
+                    hit("RecordTensor<T,S,D>::index");
+                    base.index()
+                } else {
+                    hit("RecordTensor<T,S,D>::index_by");
+                    base.index_by(dims)
+                };
+                let $v = rt_from_existing(h, TensorView::from(access));
                 $body
             }
             ViewSpec::Rn(n) => {
                 let dims: [Dimension; $D] = std::array::from_fn(|k| n[k]);
+                hit("RecordTensor<T,S,D>::rename_view");
                 let $v = base.clone().rename_view(dims);
                 $body
             }
             ViewSpec::Tr(p) => {
                 let dims: [Dimension; $D] = std::array::from_fn(|k| shape[p[k]].0);
-                let $v = RecordTensor::from_existing(h, TensorView::from(TensorTranspose::from(base, dims)));
+                let $v = rt_from_existing(h, TensorView::from(TensorTranspose::from(base, dims)));
                 $body
             }
             ViewSpec::Rg(r) => {
                 let ranges: [Option<std::ops::Range<usize>>; $D] = std::array::from_fn(|k| Some(r[k].0..r[k].0 + r[k].1));
-                let $v = RecordTensor::from_existing(h, TensorView::from(TensorRange::from_all(base, ranges).expect("range")));
+                let $v = rt_from_existing(h, TensorView::from(TensorRange::from_all(base, ranges).expect("range")));
                 $body
             }
             ViewSpec::Rev(f) => {
                 let names: Vec<Dimension> = (0..$D).filter(|&k| f[k]).map(|k| shape[k].0).collect();
-                let $v = RecordTensor::from_existing(h, TensorView::from(TensorReverse::from(base, &names)));
+                let $v = rt_from_existing(h, TensorView::from(TensorReverse::from(base, &names)));
                 $body
             }
             _ => unreachable!("harness: view kind not dispatched here"),
@@ -412,10 +494,13 @@ macro_rules! tview_fancy {
 macro_rules! tview_basic_mut {
     ($D:literal, $base:expr, $spec:expr, $v:ident => $body:expr) => {{
         let base = $base;
+        hit(HISTORY_);
         let h = base.history();
+        hit("RecordTensor<T,S,D>::shape");
         let shape = base.shape();
         match $spec {
             ViewSpec::Own => {
+                hit(CLONE_);
                 let $v = base.clone();
                 let r = $body;
                 r.map(|n| {
@@ -423,7 +508,7 @@ macro_rules! tview_basic_mut {
                 })
             }
             ViewSpec::Ref => {
-                let $v = RecordTensor::from_existing(h, TensorView::from(&mut *base));
+                let $v = rt_from_existing(h, TensorView::from(&mut *base));
                 let r = $body;
                 r.map(|_| ())
             }
@@ -435,30 +520,32 @@ macro_rules! tview_basic_mut {
 macro_rules! tview_fancy_mut {
     ($D:literal, $base:expr, $spec:expr, $v:ident => $body:expr) => {{
         let base = $base;
+        hit(HISTORY_);
         let h = base.history();
+        hit("RecordTensor<T,S,D>::shape");
         let shape = base.shape();
         match $spec {
             ViewSpec::Acc(p) => {
                 let dims: [Dimension; $D] = std::array::from_fn(|k| shape[p[k]].0);
-                let $v = RecordTensor::from_existing(h, TensorView::from(TensorAccess::from(&mut *base, dims)));
+                let $v = rt_from_existing(h, TensorView::from(TensorAccess::from(&mut *base, dims)));
                 let r = $body;
                 r.map(|_| ())
             }
             ViewSpec::Tr(p) => {
                 let dims: [Dimension; $D] = std::array::from_fn(|k| shape[p[k]].0);
-                let $v = RecordTensor::from_existing(h, TensorView::from(TensorTranspose::from(&mut *base, dims)));
+                let $v = rt_from_existing(h, TensorView::from(TensorTranspose::from(&mut *base, dims)));
                 let r = $body;
                 r.map(|_| ())
             }
             ViewSpec::Rg(r_) => {
                 let ranges: [Option<std::ops::Range<usize>>; $D] = std::array::from_fn(|k| Some(r_[k].0..r_[k].0 + r_[k].1));
-                let $v = RecordTensor::from_existing(h, TensorView::from(TensorRange::from_all(&mut *base, ranges).expect("range")));
+                let $v = rt_from_existing(h, TensorView::from(TensorRange::from_all(&mut *base, ranges).expect("range")));
                 let r = $body;
                 r.map(|_| ())
             }
             ViewSpec::Rev(f) => {
                 let names: Vec<Dimension> = (0..$D).filter(|&k| f[k]).map(|k| shape[k].0).collect();
-                let $v = RecordTensor::from_existing(h, TensorView::from(TensorReverse::from(&mut *base, &names)));
+                let $v = rt_from_existing(h, TensorView::from(TensorReverse::from(&mut *base, &names)));
                 let r = $body;
                 r.map(|_| ())
             }
@@ -470,14 +557,16 @@ macro_rules! tview_fancy_mut {
 macro_rules! mview_basic {
     ($base:expr, $spec:expr, $v:ident => $body:expr) => {{
         let base = $base;
+        hit(HISTORY_);
         let h = base.history();
         match $spec {
             ViewSpec::Own => {
+                hit(CLONE_);
                 let $v = base.clone();
                 $body
             }
             ViewSpec::Ref => {
-                let $v = RecordMatrix::from_existing(h, MatrixView::from(base));
+                let $v = rm_from_existing(h, MatrixView::from(base));
                 $body
             }
             _ => unreachable!("harness: view kind not dispatched here"),
@@ -488,17 +577,18 @@ macro_rules! mview_basic {
 macro_rules! mview_fancy {
     ($base:expr, $spec:expr, $v:ident => $body:expr) => {{
         let base = $base;
+        hit(HISTORY_);
         let h = base.history();
         match $spec {
             ViewSpec::Rg(r) => {
-                let $v = RecordMatrix::from_existing(
+                let $v = rm_from_existing(
                     h,
                     MatrixView::from(MatrixRange::from(base, r[0].0..r[0].0 + r[0].1, r[1].0..r[1].0 + r[1].1)),
                 );
                 $body
             }
             ViewSpec::Rev(f) => {
-                let $v = RecordMatrix::from_existing(
+                let $v = rm_from_existing(
                     h,
                     MatrixView::from(MatrixReverse::from(base, Reverse { rows: f[0], columns: f[1] })),
                 );
@@ -512,9 +602,11 @@ macro_rules! mview_fancy {
 macro_rules! mview_basic_mut {
     ($base:expr, $spec:expr, $v:ident => $body:expr) => {{
         let base = $base;
+        hit(HISTORY_);
         let h = base.history();
         match $spec {
             ViewSpec::Own => {
+                hit(CLONE_);
                 let $v = base.clone();
                 let r = $body;
                 r.map(|n| {
@@ -522,7 +614,7 @@ macro_rules! mview_basic_mut {
                 })
             }
             ViewSpec::Ref => {
-                let $v = RecordMatrix::from_existing(h, MatrixView::from(&mut *base));
+                let $v = rm_from_existing(h, MatrixView::from(&mut *base));
                 let r = $body;
                 r.map(|_| ())
             }
@@ -534,10 +626,11 @@ macro_rules! mview_basic_mut {
 macro_rules! mview_fancy_mut {
     ($base:expr, $spec:expr, $v:ident => $body:expr) => {{
         let base = $base;
+        hit(HISTORY_);
         let h = base.history();
         match $spec {
             ViewSpec::Rg(r_) => {
-                let $v = RecordMatrix::from_existing(
+                let $v = rm_from_existing(
                     h,
                     MatrixView::from(MatrixRange::from(&mut *base, r_[0].0..r_[0].0 + r_[0].1, r_[1].0..r_[1].0 + r_[1].1)),
                 );
@@ -545,7 +638,7 @@ macro_rules! mview_fancy_mut {
                 r.map(|_| ())
             }
             ViewSpec::Rev(f) => {
-                let $v = RecordMatrix::from_existing(
+                let $v = rm_from_existing(
                     h,
                     MatrixView::from(MatrixReverse::from(&mut *base, Reverse { rows: f[0], columns: f[1] })),
                 );
@@ -928,6 +1021,7 @@ where
     S1: TensorRef<(T, Index), D>,
     S2: TensorRef<(T, Index), D>,
 {
+    hit_op("T", op, via);
     bin_body_full!(a, b, op, via, fns)
 }
 
@@ -938,6 +1032,7 @@ where
     S1: TensorRef<(T, Index), D>,
     S2: TensorRef<(T, Index), D>,
 {
+    hit_op("T", op, "ref_ref");
     bin_body_lite!(a, b, op, fns)
 }
 
@@ -948,6 +1043,7 @@ where
     S1: MatrixRef<(T, Index)> + NoInteriorMutability,
     S2: MatrixRef<(T, Index)> + NoInteriorMutability,
 {
+    hit_op("M", op, via);
     bin_body_full!(a, b, op, via, fns)
 }
 
@@ -958,6 +1054,7 @@ where
     S1: MatrixRef<(T, Index)> + NoInteriorMutability,
     S2: MatrixRef<(T, Index)> + NoInteriorMutability,
 {
+    hit_op("M", op, "ref_ref");
     bin_body_lite!(a, b, op, fns)
 }
 
@@ -995,6 +1092,7 @@ where
     for<'x> &'x T: NumericRef<T>,
     S: TensorRef<(T, Index), D> + Clone,
 {
+    hit_op("T", op, via);
     bin_same_body!(v, op, via, fns)
 }
 
@@ -1004,6 +1102,7 @@ where
     for<'x> &'x T: NumericRef<T>,
     S: MatrixRef<(T, Index)> + NoInteriorMutability + Clone,
 {
+    hit_op("M", op, via);
     bin_same_body!(v, op, via, fns)
 }
 
@@ -1014,6 +1113,7 @@ where
     S1: TensorRef<(T, Index), 2>,
     S2: TensorRef<(T, Index), 2>,
 {
+    hit_op("T", "matmul", via);
     forms4!(via, a, b, *)
 }
 
@@ -1024,6 +1124,7 @@ where
     S1: TensorRef<(T, Index), 2>,
     S2: TensorRef<(T, Index), 2>,
 {
+    hit_op("T", "matmul", "ref_ref");
     &a * &b
 }
 
@@ -1034,6 +1135,7 @@ where
     S1: MatrixRef<(T, Index)> + NoInteriorMutability,
     S2: MatrixRef<(T, Index)> + NoInteriorMutability,
 {
+    hit_op("M", "matmul", via);
     forms4!(via, a, b, *)
 }
 
@@ -1044,6 +1146,7 @@ where
     S1: MatrixRef<(T, Index)> + NoInteriorMutability,
     S2: MatrixRef<(T, Index)> + NoInteriorMutability,
 {
+    hit_op("M", "matmul", "ref_ref");
     &a * &b
 }
 
@@ -1109,6 +1212,7 @@ where
     for<'x> &'x T: NumericRef<T>,
     S: TensorRef<(T, Index), D>,
 {
+    hit_op("T", op, via);
     un_body_full!(T, v, op, via, k, fns, T::t_real_full)
 }
 
@@ -1118,6 +1222,7 @@ where
     for<'x> &'x T: NumericRef<T>,
     S: TensorRef<(T, Index), D>,
 {
+    api::hit_op_lite("T", op);
     un_body_lite!(T, v, op, k, fns, T::t_real_lite)
 }
 
@@ -1127,6 +1232,7 @@ where
     for<'x> &'x T: NumericRef<T>,
     S: MatrixRef<(T, Index)> + NoInteriorMutability,
 {
+    hit_op("M", op, via);
     un_body_full!(T, v, op, via, k, fns, T::m_real_full)
 }
 
@@ -1136,6 +1242,7 @@ where
     for<'x> &'x T: NumericRef<T>,
     S: MatrixRef<(T, Index)> + NoInteriorMutability,
 {
+    api::hit_op_lite("M", op);
     un_body_lite!(T, v, op, k, fns, T::m_real_lite)
 }
 
@@ -1161,6 +1268,13 @@ where
     }
     fn shape(&self) -> Sh {
         match self {
+            AnyC::M(_) => {
+                hit("RecordMatrix<T,S>::rows");
+                hit("RecordMatrix<T,S>::columns");
+            }
+            _ => hit("RecordTensor<T,S,D>::shape"),
+        }
+        match self {
             AnyC::T0(c) => c.shape().to_vec(),
             AnyC::T1(c) => c.shape().to_vec(),
             AnyC::T2(c) => c.shape().to_vec(),
@@ -1169,6 +1283,7 @@ where
         }
     }
     fn history(&self) -> Option<&'static WengertList<T>> {
+        hit(HISTORY_);
         match self {
             AnyC::T0(c) => c.history(),
             AnyC::T1(c) => c.history(),
@@ -1179,6 +1294,7 @@ where
     }
     /// `elements()` of the container
     fn elements(&self) -> usize {
+        hit2(if self.is_matrix() { RM_ } else { RT_ }, "elements");
         match self {
             AnyC::T0(c) => c.elements(),
             AnyC::T1(c) => c.elements(),
@@ -1187,17 +1303,34 @@ where
             AnyC::M(c) => c.elements(),
         }
     }
+    /// a copy made by `clone_from` onto a container of constants of another shape
     fn copy(&self) -> AnyC<T> {
+        hit(CLONE_);
+        hit("Clone::clone_from");
+        macro_rules! via_clone_from {
+            ($c:ident, $D:literal, $variant:ident) => {{
+                let shape: [(Dimension, usize); $D] = std::array::from_fn(|k| (["zz", "yy", "xx"][k % 3], 1 + k % 2));
+                let n: usize = shape.iter().map(|d| d.1).product();
+                let mut other: RT<T, $D> = RecordTensor::constants(Tensor::from(shape, vec![T::zero(); n]));
+                other.clone_from($c);
+                AnyC::$variant(other)
+            }};
+        }
         match self {
             AnyC::T0(c) => AnyC::T0(c.clone()),
-            AnyC::T1(c) => AnyC::T1(c.clone()),
-            AnyC::T2(c) => AnyC::T2(c.clone()),
-            AnyC::T3(c) => AnyC::T3(c.clone()),
-            AnyC::M(c) => AnyC::M(c.clone()),
+            AnyC::T1(c) => via_clone_from!(c, 1, T1),
+            AnyC::T2(c) => via_clone_from!(c, 2, T2),
+            AnyC::T3(c) => via_clone_from!(c, 3, T3),
+            AnyC::M(c) => {
+                let mut other: RM<T> = RecordMatrix::constants(Matrix::from_flat_row_major((1, 2), vec![T::zero(); 2]));
+                other.clone_from(c);
+                AnyC::M(other)
+            }
         }
     }
     /// `(number, index)` in row-major order
     fn elems(&self) -> Vec<(T, Index)> {
+        hit2(if self.is_matrix() { RM_ } else { RT_ }, "view");
         match self {
             AnyC::T0(c) => c.view().iter().collect(),
             AnyC::T1(c) => c.view().iter().collect(),
@@ -1269,6 +1402,7 @@ where
         let vals: Vec<T> = elems.iter().map(|e| e.0.clone()).collect();
         let idx: Vec<usize> = elems.iter().map(|e| e.1).collect();
         let is_const = slot.c.history().is_none();
+        hit(if slot.c.is_matrix() { "impl~std::fmt::Display~for~RecordMatrix<T,S>::fmt" } else { "impl~std::fmt::Display~for~RecordTensor<T,S,D>::fmt" });
         let shown = match &slot.c {
             AnyC::T0(c) => format!("{}", c),
             AnyC::T1(c) => format!("{}", c),
@@ -1334,6 +1468,7 @@ where
         macro_rules! mk {
             ($D:literal, $variant:ident) => {{
                 let tensor = tensor_from::<T, $D>(&shape, vals.clone());
+                hit(if list.is_some() { "RecordTensor<T,Tensor<(T,Index),D>,D>::variables" } else { "RecordTensor<T,Tensor<(T,Index),D>,D>::constants" });
                 catch(|| {
                     AnyC::$variant(match list {
                         Some(l) => RecordTensor::variables(l, tensor),
@@ -1345,6 +1480,7 @@ where
         let c = match (kind, shape.len()) {
             ("M", 2) => {
                 let m = Matrix::from_flat_row_major((shape[0].1, shape[1].1), vals.clone());
+                hit(if list.is_some() { "RecordMatrix<T,Matrix<(T,Index)>>::variables" } else { "RecordMatrix<T,Matrix<(T,Index)>>::constants" });
                 catch(|| {
                     AnyC::M(match list {
                         Some(l) => RecordMatrix::variables(l, m),
@@ -1534,11 +1670,13 @@ where
         let sfns = ufn_pair::<T>(opt_arg("fn", toks).unwrap(), None);
         let (f, df) = (&fns.0, &fns.1);
         macro_rules! body {
-            ($v:ident) => {
+            ($v:ident, $cont:expr) => {
                 catch(move || {
                     if via == "do" {
+                        hit2($cont, "do_unary_assign");
                         $v.do_unary_assign(|x| f(x), |x| df(x))
                     } else {
+                        hit2($cont, "unary_assign");
                         let mut v = $v;
                         v.unary_assign(|x| f(x), |x| df(x));
                         v
@@ -1549,10 +1687,10 @@ where
         let slot = self.slots.get_mut(&an).unwrap();
         let r: Result<(), PanicKind> = match &mut slot.c {
             AnyC::T0(_) => return "bad-kind".into(),
-            AnyC::T1(c) => tview_basic_mut!(1, c, &spec, v => body!(v)),
-            AnyC::T2(c) => tview_mut!(2, c, &spec, v => body!(v)),
-            AnyC::T3(c) => tview_basic_mut!(3, c, &spec, v => body!(v)),
-            AnyC::M(c) => mview_mut!(c, &spec, v => body!(v)),
+            AnyC::T1(c) => tview_basic_mut!(1, c, &spec, v => body!(v, RT_)),
+            AnyC::T2(c) => tview_mut!(2, c, &spec, v => body!(v, RT_)),
+            AnyC::T3(c) => tview_basic_mut!(3, c, &spec, v => body!(v, RT_)),
+            AnyC::M(c) => mview_mut!(c, &spec, v => body!(v, RM_)),
         };
         let sfr = Some(&sfns);
         let new = self
@@ -1584,8 +1722,14 @@ where
         let other_copy: AnyC<T> = self.slots[&other.0].c.copy();
         let (tspec, ospec) = (&target.1, &other.1);
         macro_rules! body {
-            ($t:ident, $o:ident) => {
+            ($t:ident, $o:ident, $cont:expr) => {
                 catch(move || {
+                    hit2($cont, match (left, via == "do") {
+                        (true, true) => "do_binary_left_assign",
+                        (true, false) => "binary_left_assign",
+                        (false, true) => "do_binary_right_assign",
+                        (false, false) => "binary_right_assign",
+                    });
                     if left {
                         if via == "do" {
                             $t.do_binary_left_assign(&$o, |x, y| f(x, y), |x, y| dfx(x, y), |x, y| dfy(x, y))
@@ -1606,8 +1750,9 @@ where
         }
         // the `do_…` (by value) forms with the owned / borrowed source kinds only
         macro_rules! body_lite {
-            ($t:ident, $o:ident) => {
+            ($t:ident, $o:ident, $cont:expr) => {
                 catch(move || {
+                    hit2($cont, if left { "binary_left_assign" } else { "binary_right_assign" });
                     let mut t = $t;
                     if left {
                         t.binary_left_assign(&$o, |x, y| f(x, y), |x, y| dfx(x, y), |x, y| dfy(x, y));
@@ -1624,14 +1769,14 @@ where
         }
         let slot = self.slots.get_mut(&target.0).unwrap();
         let r: Result<(), PanicKind> = match (&mut slot.c, &other_copy) {
-            (AnyC::T1(c), AnyC::T1(o)) => tview_basic!(1, o, ospec, vo => tview_basic_mut!(1, c, tspec, vt => body!(vt, vo))),
-            (AnyC::T2(c), AnyC::T2(o)) if bt && bo => tview_basic!(2, o, ospec, vo => tview_basic_mut!(2, c, tspec, vt => body!(vt, vo))),
-            (AnyC::T2(c), AnyC::T2(o)) if bo => tview_basic!(2, o, ospec, vo => tview_fancy_mut!(2, c, tspec, vt => body_lite!(vt, vo))),
-            (AnyC::T2(c), AnyC::T2(o)) => tview_fancy!(2, o, ospec, vo => tview_basic_mut!(2, c, tspec, vt => body_lite!(vt, vo))),
-            (AnyC::T3(c), AnyC::T3(o)) => tview_basic!(3, o, ospec, vo => tview_basic_mut!(3, c, tspec, vt => body!(vt, vo))),
-            (AnyC::M(c), AnyC::M(o)) if bt && bo => mview_basic!(o, ospec, vo => mview_basic_mut!(c, tspec, vt => body!(vt, vo))),
-            (AnyC::M(c), AnyC::M(o)) if bo => mview_basic!(o, ospec, vo => mview_fancy_mut!(c, tspec, vt => body_lite!(vt, vo))),
-            (AnyC::M(c), AnyC::M(o)) => mview_fancy!(o, ospec, vo => mview_basic_mut!(c, tspec, vt => body_lite!(vt, vo))),
+            (AnyC::T1(c), AnyC::T1(o)) => tview_basic!(1, o, ospec, vo => tview_basic_mut!(1, c, tspec, vt => body!(vt, vo, RT_))),
+            (AnyC::T2(c), AnyC::T2(o)) if bt && bo => tview_basic!(2, o, ospec, vo => tview_basic_mut!(2, c, tspec, vt => body!(vt, vo, RT_))),
+            (AnyC::T2(c), AnyC::T2(o)) if bo => tview_basic!(2, o, ospec, vo => tview_fancy_mut!(2, c, tspec, vt => body_lite!(vt, vo, RT_))),
+            (AnyC::T2(c), AnyC::T2(o)) => tview_fancy!(2, o, ospec, vo => tview_basic_mut!(2, c, tspec, vt => body_lite!(vt, vo, RT_))),
+            (AnyC::T3(c), AnyC::T3(o)) => tview_basic!(3, o, ospec, vo => tview_basic_mut!(3, c, tspec, vt => body!(vt, vo, RT_))),
+            (AnyC::M(c), AnyC::M(o)) if bt && bo => mview_basic!(o, ospec, vo => mview_basic_mut!(c, tspec, vt => body!(vt, vo, RM_))),
+            (AnyC::M(c), AnyC::M(o)) if bo => mview_basic!(o, ospec, vo => mview_fancy_mut!(c, tspec, vt => body_lite!(vt, vo, RM_))),
+            (AnyC::M(c), AnyC::M(o)) => mview_fancy!(o, ospec, vo => mview_basic_mut!(c, tspec, vt => body_lite!(vt, vo, RM_))),
             _ => return "bad-kind".into(),
         };
         let sfr = Some(&sfns);
@@ -1675,8 +1820,10 @@ where
             ($v:ident, $variant:ident) => {
                 catch(|| {
                     if via == "with_index" {
+                        hit2(RT_, "map_with_index");
                         $v.map_with_index(|i, x| f(flat(&i), x)).map(AnyC::$variant)
                     } else {
+                        hit2(RT_, "map");
                         $v.map(|x| f(0, x)).map(AnyC::$variant)
                     }
                 })
@@ -1689,8 +1836,10 @@ where
             AnyC::T3(c) => tview_basic!(3, c, &spec, v => tbody!(v, T3)),
             AnyC::M(c) => mview!(c, &spec, v => catch(|| {
                 if via == "with_index" {
+                    hit2(RM_, "map_with_index");
                     v.map_with_index(|x, r, c| f(r * cols + c, x)).map(AnyC::M)
                 } else {
+                    hit2(RM_, "map");
                     v.map(|x| f(0, x)).map(AnyC::M)
                 }
             })),
@@ -1703,7 +1852,18 @@ where
         match out {
             Err(kind) => panic_str(kind),
             Ok(Err(e)) => {
-                // the error's `Display` names both histories
+                // the error's `Display` names both histories; its derived `Clone` / `Debug`
+                hit("impl~fmt::Display~for~InconsistentHistory<T>::fmt");
+                hit("derive~Clone~for~InconsistentHistory");
+                hit("derive~Debug~for~InconsistentHistory");
+                let e = e.clone();
+                if !format!("{:?}", e).contains("InconsistentHistory") {
+                    complain("debug-of-InconsistentHistory".into());
+                }
+                let as_error: &dyn std::error::Error = &e;
+                if as_error.to_string() != format!("{}", e) {
+                    complain("error-trait-object-of-InconsistentHistory".into());
+                }
                 let text = format!("{}", e);
                 if text.starts_with("First history was") {
                     self.show_inconsistent(e.first, e.later)
@@ -1741,6 +1901,7 @@ where
             ($v:ident) => {
                 catch(move || {
                     let mut v = $v;
+                    hit2(RT_, if via == "with_index" { "map_mut_with_index" } else { "map_mut" });
                     let r = if via == "with_index" { v.map_mut_with_index(|i, x| fp(flatp(&i), x)) } else { v.map_mut(|x| fp(0, x)) };
                     if let Err(e) = r {
                         *errp = Some((e.first, e.later));
@@ -1757,6 +1918,7 @@ where
             AnyC::T3(c) => tview_basic_mut!(3, c, &spec, v => tbody!(v)),
             AnyC::M(c) => mview_mut!(c, &spec, v => catch(move || {
                 let mut v = v;
+                hit2(RM_, if via == "with_index" { "map_mut_with_index" } else { "map_mut" });
                 let r = if via == "with_index" { v.map_mut_with_index(|x, r, c| fp(r * cols + c, x)) } else { v.map_mut(|x| fp(0, x)) };
                 if let Err(e) = r {
                     *errp = Some((e.first, e.later));
@@ -1800,17 +1962,66 @@ where
     }
 
     /// the records an operand yields (`iter_as_records` in the requested order)
-    fn records_of(&self, name: &str, spec: &ViewSpec, order: &str) -> Vec<Rc<T>> {
+    /// `ctor`: `plain` (the container's method), `ctor` (`AsRecords::from_tensor` /
+    /// `from_matrix_row_major` / `from_matrix_column_major`), `from` (`AsRecords::from` over the
+    /// library's iterator of `(number, index)` pairs)
+    fn records_of(&self, name: &str, spec: &ViewSpec, order: &str, ctor: &str) -> Vec<Rc<T>> {
+        use easy_ml::differentiation::iterators::AsRecords;
+        use easy_ml::matrices::iterators::{ColumnMajorIterator, RowMajorIterator};
+        use easy_ml::tensors::indexing::TensorIterator;
         let slot = &self.slots[name];
+        hit("impl~Iterator~for~AsRecords<I,T>::next");
+        hit("impl~Iterator~for~AsRecords<I,T>::size_hint");
+        hit("impl~ExactSizeIterator~for~AsRecords<I,T>");
+        macro_rules! tbody {
+            ($v:ident) => {
+                match ctor {
+                    "ctor" => {
+                        hit("AsRecords<TensorIterator<(T,Index),RecordTensor<T,S,D>,D>,T>::from_tensor");
+                        drain_checked(AsRecords::from_tensor(&$v), "AsRecords")
+                    }
+                    "from" => {
+                        hit("AsRecords<I,T>::from");
+                        hit(HISTORY_);
+                        drain_checked(AsRecords::from($v.history(), TensorIterator::from(&$v)), "AsRecords")
+                    }
+                    _ => {
+                        hit2(RT_, "iter_as_records");
+                        drain_checked($v.iter_as_records(), "AsRecords")
+                    }
+                }
+            };
+        }
         let mut recs: Vec<Rc<T>> = match &slot.c {
-            AnyC::T0(c) => tview_basic!(0, c, spec, v => v.iter_as_records().collect()),
-            AnyC::T1(c) => tview_basic!(1, c, spec, v => v.iter_as_records().collect()),
-            AnyC::T2(c) => tview!(2, c, spec, v => v.iter_as_records().collect()),
-            AnyC::T3(c) => tview_basic!(3, c, spec, v => v.iter_as_records().collect()),
-            AnyC::M(c) => mview!(c, spec, v => if order == "cm" {
-                v.iter_column_major_as_records().collect()
-            } else {
-                v.iter_row_major_as_records().collect()
+            AnyC::T0(c) => tview_basic!(0, c, spec, v => tbody!(v)),
+            AnyC::T1(c) => tview_basic!(1, c, spec, v => tbody!(v)),
+            AnyC::T2(c) => tview!(2, c, spec, v => tbody!(v)),
+            AnyC::T3(c) => tview_basic!(3, c, spec, v => tbody!(v)),
+            AnyC::M(c) => mview!(c, spec, v => match (ctor, order == "cm") {
+                ("ctor", true) => {
+                    hit("AsRecords<ColumnMajorIterator<(T,Index),RecordMatrix<T,S>>,T>::from_matrix_column_major");
+                    drain_checked(AsRecords::from_matrix_column_major(&v), "AsRecords")
+                }
+                ("ctor", false) => {
+                    hit("AsRecords<RowMajorIterator<(T,Index),RecordMatrix<T,S>>,T>::from_matrix_row_major");
+                    drain_checked(AsRecords::from_matrix_row_major(&v), "AsRecords")
+                }
+                ("from", true) => {
+                    hit("AsRecords<I,T>::from");
+                    drain_checked(AsRecords::from(v.history(), ColumnMajorIterator::from(&v)), "AsRecords")
+                }
+                ("from", false) => {
+                    hit("AsRecords<I,T>::from");
+                    drain_checked(AsRecords::from(v.history(), RowMajorIterator::from(&v)), "AsRecords")
+                }
+                (_, true) => {
+                    hit2(RM_, "iter_column_major_as_records");
+                    drain_checked(v.iter_column_major_as_records(), "AsRecords")
+                }
+                (_, false) => {
+                    hit2(RM_, "iter_row_major_as_records");
+                    drain_checked(v.iter_row_major_as_records(), "AsRecords")
+                }
             }),
         };
         if order == "rev" {
@@ -1829,17 +2040,24 @@ where
         let st = strides(vs);
         let flat = |i: &[usize]| i.iter().zip(st.iter()).map(|(x, y)| x * y).sum::<usize>();
         let cols = vs.last().map(|x| x.1).unwrap_or(1);
+        hit("impl~Iterator~for~WithIndex<AsRecords<I,T>>::next");
+        hit("impl~Iterator~for~WithIndex<AsRecords<I,T>>::size_hint");
+        hit("impl~ExactSizeIterator~for~WithIndex<AsRecords<I,T>>");
         macro_rules! tbody {
             ($v:ident) => {{
+                hit2(RT_, "iter_as_records");
                 if via == "from_with_index" {
                     // the constructor is public, its result has no public way of being iterated
+                    hit("AsRecords<I,T>::from_with_index");
                     let _ = AsRecords::from_with_index($v.history(), TensorIterator::from(&$v).with_index());
                 }
                 if via == "into" {
+                    hit("impl~From<AsRecords<I,T>>~for~WithIndex<AsRecords<WithIndex<I>,T>>::from");
                     let w: WithIndex<_> = $v.iter_as_records().into();
-                    w.map(|(i, r)| (flat(&i), r)).collect()
+                    drain_checked(w, "WithIndex<AsRecords>").into_iter().map(|(i, r)| (flat(&i), r)).collect()
                 } else {
-                    $v.iter_as_records().with_index().map(|(i, r)| (flat(&i), r)).collect()
+                    hit("AsRecords<I,T>::with_index");
+                    drain_checked($v.iter_as_records().with_index(), "WithIndex<AsRecords>").into_iter().map(|(i, r)| (flat(&i), r)).collect()
                 }
             }};
         }
@@ -1849,14 +2067,18 @@ where
             AnyC::T2(c) => tview!(2, c, spec, v => tbody!(v)),
             AnyC::T3(c) => tview_basic!(3, c, spec, v => tbody!(v)),
             AnyC::M(c) => mview!(c, spec, v => {
+                hit2(RM_, "iter_row_major_as_records");
                 if via == "from_with_index" {
+                    hit("AsRecords<I,T>::from_with_index");
                     let _ = AsRecords::from_with_index(v.history(), RowMajorIterator::from(&v).with_index());
                 }
                 if via == "into" {
+                    hit("impl~From<AsRecords<I,T>>~for~WithIndex<AsRecords<WithIndex<I>,T>>::from");
                     let w: WithIndex<_> = v.iter_row_major_as_records().into();
-                    w.map(|((r, c), x)| (r * cols + c, x)).collect()
+                    drain_checked(w, "WithIndex<AsRecords>").into_iter().map(|((r, c), x)| (r * cols + c, x)).collect()
                 } else {
-                    v.iter_row_major_as_records().with_index().map(|((r, c), x)| (r * cols + c, x)).collect()
+                    hit("AsRecords<I,T>::with_index");
+                    drain_checked(v.iter_row_major_as_records().with_index(), "WithIndex<AsRecords>").into_iter().map(|((r, c), x)| (r * cols + c, x)).collect()
                 }
             }),
         }
@@ -1889,6 +2111,7 @@ where
                 }
             };
         }
+        hit(if to_matrix { "RecordMatrix<T,Matrix<(T,Index)>>::from_iter" } else { "RecordTensor<T,Tensor<(T,Index),D>,D>::from_iter" });
         catch(move || {
             if to_matrix {
                 conv!(RecordMatrix::from_iter((shape[0].1, shape[1].1), recs), M)
@@ -1950,10 +2173,10 @@ where
         let mut recs: Vec<(usize, Rc<T>)> = if indexed {
             self.indexed_records_of(&an, &spec, &vs, via)
         } else {
-            self.records_of(&an, &spec, order).into_iter().map(|r| (0, r)).collect()
+            self.records_of(&an, &spec, order, via).into_iter().map(|r| (0, r)).collect()
         };
         if let Some(c) = &chain {
-            recs.extend(self.records_of(&c.0, &c.1, "rm").into_iter().map(|r| (0, r)));
+            recs.extend(self.records_of(&c.0, &c.1, "rm", via).into_iter().map(|r| (0, r)));
         }
         let n = take.unwrap_or(recs.len());
         let iter: Box<dyn Iterator<Item = Rc<T>>> = Box::new(recs.into_iter().take(n).map(move |(k, x)| f(k, x)));
@@ -1995,7 +2218,7 @@ where
         }
         let (f1, f2) = (rec_fn::<T>(fnames[0], self.lists(false)), rec_fn::<T>(fnames[1], self.lists(false)));
         let (s1, s2) = (rec_fn::<T>(fnames[0], self.lists(true)), rec_fn::<T>(fnames[1], self.lists(true)));
-        let recs = self.records_of(&an, &spec, "rm");
+        let recs = self.records_of(&an, &spec, "rm", opt_arg("via", toks).unwrap_or("plain"));
         let iter = recs.into_iter().map(move |x| {
             let y1 = f1(0, x.clone());
             let y2 = f2(0, x);
@@ -2013,6 +2236,7 @@ where
             };
         }
         let shape_ref = &shape;
+        hit(if to_matrix { "RecordMatrix<T,Matrix<(T,Index)>>::from_iters" } else { "RecordTensor<T,Tensor<(T,Index),D>,D>::from_iters" });
         let out: Result<[Result<AnyC<T>, String>; 2], PanicKind> = catch(move || {
             if to_matrix {
                 conv!(RecordMatrix::from_iters::<_, 2>((shape_ref[0].1, shape_ref[1].1), iter), M)
@@ -2072,9 +2296,12 @@ where
         macro_rules! body {
             ($v:ident, $Ty:ident) => {
                 catch(move || {
+                    let cont = if stringify!($Ty) == "RecordTensor" { RT_ } else { RM_ };
                     if via == "do_reset" {
+                        hit2(cont, "do_reset");
                         $Ty::do_reset($v)
                     } else {
+                        hit2(cont, "reset");
                         let mut v = $v;
                         v.reset();
                         v
@@ -2123,9 +2350,11 @@ where
             ($v:ident) => {
                 catch(|| {
                     if via == "for" {
+                        hit("Derivatives<T>::at_tensor_index");
                         let lens: Vec<usize> = $v.shape().iter().map(|x| x.1).collect();
                         all_indexes(&lens).iter().map(|i| d.at_tensor_index(to_array(i), &$v).expect("index in range")).collect::<Vec<T>>()
                     } else {
+                        hit("Derivatives<T>::at_tensor");
                         d.at_tensor(&$v).iter().collect::<Vec<T>>()
                     }
                 })
@@ -2138,6 +2367,8 @@ where
             AnyC::T3(c) => tview_basic!(3, c, spec, v => tbody!(v)),
             AnyC::M(c) => mview!(c, spec, v => catch(|| {
                 if via == "for" {
+                    hit("Derivatives<T>::at_matrix_index");
+                    hit("RecordMatrix<T,S>::size");
                     let (r, k) = v.size();
                     let mut out = vec![];
                     for i in 0..r {
@@ -2147,6 +2378,7 @@ where
                     }
                     out
                 } else {
+                    hit("Derivatives<T>::at_matrix");
                     d.at_matrix(&v).row_major_iter().collect::<Vec<T>>()
                 }
             })),
@@ -2172,9 +2404,11 @@ where
             ($v:ident) => {
                 catch(|| {
                     if via == "for" {
+                        hit2(RT_, "derivatives_for");
                         let lens: Vec<usize> = $v.shape().iter().map(|x| x.1).collect();
                         all_indexes(&lens).iter().map(|i| $v.derivatives_for(to_array(i))).collect::<Option<Vec<Derivatives<T>>>>()
                     } else {
+                        hit2(RT_, "derivatives");
                         $v.derivatives().map(|t| t.iter_reference().cloned().collect::<Vec<Derivatives<T>>>())
                     }
                 })
@@ -2187,6 +2421,8 @@ where
             AnyC::T3(c) => tview_basic!(3, c, &ospec, v => tbody!(v)),
             AnyC::M(c) => mview!(c, &ospec, v => catch(|| {
                 if via == "for" {
+                    hit2(RM_, "derivatives_for");
+                    hit2(RM_, "size");
                     let (r, k) = v.size();
                     let mut out = vec![];
                     for i in 0..r {
@@ -2196,6 +2432,7 @@ where
                     }
                     out.into_iter().collect::<Option<Vec<Derivatives<T>>>>()
                 } else {
+                    hit2(RM_, "derivatives");
                     v.derivatives().map(|m| m.row_major_reference_iter().cloned().collect::<Vec<Derivatives<T>>>())
                 }
             })),
@@ -2292,6 +2529,7 @@ where
                 AnyC::T3(c) => elem_t::<T, 3>(c, &spec, &idx, access, form),
                 AnyC::M(c) => {
                     let c = &*c;
+                    hit2(RM_, if form == "try" { "try_get_as_record" } else { "get_as_record" });
                     catch(|| if form == "try" { c.try_get_as_record(idx[0], idx[1]) } else { Some(c.get_as_record(idx[0], idx[1])) })
                 }
             }
@@ -2316,6 +2554,7 @@ where
                 }
             }
         };
+        hit(if conv == "ref" { "impl~From<&Record<T>>~for~RecordTensor<T,Tensor<(T,Index),0>,0>::from" } else { "impl~From<Record<T>>~for~RecordTensor<T,Tensor<(T,Index),0>,0>::from" });
         let z: RT<T, 0> = if conv == "ref" { RecordTensor::from(&rec) } else { RecordTensor::from(rec) };
         self.put(res, AnyC::T0(z), srec.map(|r| vec![r]));
         format!("v={} const={} scalar={} idx={}", number, if is_const { 1 } else { 0 }, scalar, index)
@@ -2331,7 +2570,9 @@ where
         let via: Vec<&str> = opt_arg("via", toks).unwrap_or("val.val").split('.').collect();
         let z = match &self.slots[&n].c {
             AnyC::T0(c) => {
+                hit(if via[0] == "ref" { "impl~From<&RecordTensor<T,S,0>>~for~Record<T>::from" } else { "impl~From<RecordTensor<T,S,0>>~for~Record<T>::from" });
                 let rec: Rc<T> = if via[0] == "ref" { Record::from(c) } else { Record::from(c.clone()) };
+                hit(if via.get(1) == Some(&"ref") { "impl~From<&Record<T>>~for~RecordTensor<T,Tensor<(T,Index),0>,0>::from" } else { "impl~From<Record<T>>~for~RecordTensor<T,Tensor<(T,Index),0>,0>::from" });
                 let z: RT<T, 0> = if via.get(1) == Some(&"ref") { RecordTensor::from(&rec) } else { RecordTensor::from(rec) };
                 z
             }
@@ -2360,12 +2601,17 @@ where
                     false
                 } else {
                     let (ai, aj): ([usize; $D], [usize; $D]) = (to_array(&i), to_array(&j));
+                    hit("impl~TensorMut<(T,Index),D>~for~RecordTensor<T,S,D>::get_reference_mut");
+                    hit("impl~TensorMut<(T,Index),D>~for~RecordTensor<T,S,D>::get_reference_unchecked_mut");
                     let a = TensorMut::get_reference_mut($c, ai).map(|x| x.clone());
                     let b = TensorMut::get_reference_mut($c, aj).map(|x| x.clone());
                     match (a, b) {
                         (Some(a), Some(b)) => {
                             *TensorMut::get_reference_mut($c, ai).unwrap() = b;
-                            *TensorMut::get_reference_mut($c, aj).unwrap() = a;
+                            // both indexes were just found to be in range
+                            unsafe {
+                                *TensorMut::get_reference_unchecked_mut($c, aj) = a;
+                            }
                             true
                         }
                         _ => false,
@@ -2382,12 +2628,17 @@ where
                 if i.len() != 2 || j.len() != 2 {
                     false
                 } else {
+                    hit("impl~MatrixMut<(T,Index)>~for~RecordMatrix<T,S>::try_get_reference_mut");
+                    hit("impl~MatrixMut<(T,Index)>~for~RecordMatrix<T,S>::get_reference_unchecked_mut");
                     let a = MatrixMut::try_get_reference_mut(c, i[0], i[1]).map(|x| x.clone());
                     let b = MatrixMut::try_get_reference_mut(c, j[0], j[1]).map(|x| x.clone());
                     match (a, b) {
                         (Some(a), Some(b)) => {
                             *MatrixMut::try_get_reference_mut(c, i[0], i[1]).unwrap() = b;
-                            *MatrixMut::try_get_reference_mut(c, j[0], j[1]).unwrap() = a;
+                            // both indexes were just found to be in range
+                            unsafe {
+                                *MatrixMut::get_reference_unchecked_mut(c, j[0], j[1]) = a;
+                            }
                             true
                         }
                         _ => false,
@@ -2416,24 +2667,83 @@ where
             Err(e) => return e,
         };
         macro_rules! tlayout {
-            ($c:ident, $D:literal) => {
+            ($c:ident, $D:literal) => {{
+                // the container as a `TensorRef` source, through the trait: shape and every
+                // element (checked and unchecked), one index past the end of every dimension
+                for m in ["get_reference", "view_shape", "get_reference_unchecked", "data_layout"] {
+                    hit(&format!("impl~TensorRef<(T,Index),D>~for~RecordTensor<T,S,D>::{}", m));
+                }
+                hit("derive~Debug~for~RecordContainer");
+                if !format!("{:?}", $c).contains("RecordContainer") {
+                    complain("debug-of-RecordContainer".into());
+                }
+                let shape = <RT<T, $D> as TensorRef<(T, Index), $D>>::view_shape($c);
+                if shape != $c.shape() {
+                    complain("TensorRef::view_shape".into());
+                }
+                let lens: Vec<usize> = shape.iter().map(|d| d.1).collect();
+                let expected: Vec<(T, Index)> = $c.view().iter().collect();
+                for (k, i) in all_indexes(&lens).iter().enumerate() {
+                    let i: [usize; $D] = to_array(i);
+                    let a = <RT<T, $D> as TensorRef<(T, Index), $D>>::get_reference($c, i).cloned();
+                    let b = unsafe { <RT<T, $D> as TensorRef<(T, Index), $D>>::get_reference_unchecked($c, i) }.clone();
+                    let same = |x: &(T, Index)| x.0.eqv(&expected[k].0) && x.1 == expected[k].1;
+                    if !a.as_ref().map(same).unwrap_or(false) || !same(&b) {
+                        complain(format!("TensorRef::get_reference-at-{}", k));
+                    }
+                    for d in 0..$D {
+                        let mut out = i;
+                        out[d] = lens[d];
+                        if <RT<T, $D> as TensorRef<(T, Index), $D>>::get_reference($c, out).is_some() {
+                            complain("TensorRef::get_reference-out-of-range".into());
+                        }
+                    }
+                }
                 match <RT<T, $D> as TensorRef<(T, Index), $D>>::data_layout($c) {
                     TLayout::Linear(names) => format!("linear:{}", show_names(&names)),
                     TLayout::NonLinear => "non_linear".to_string(),
                     TLayout::Other => "other".to_string(),
                 }
-            };
+            }};
         }
         let l = match &self.slots[&n].c {
             AnyC::T0(c) => tlayout!(c, 0),
             AnyC::T1(c) => tlayout!(c, 1),
             AnyC::T2(c) => tlayout!(c, 2),
             AnyC::T3(c) => tlayout!(c, 3),
-            AnyC::M(c) => match <RM<T> as MatrixRef<(T, Index)>>::data_layout(c) {
-                MLayout::RowMajor => "row_major".to_string(),
-                MLayout::ColumnMajor => "column_major".to_string(),
-                MLayout::Other => "other".to_string(),
-            },
+            AnyC::M(c) => {
+                for m in ["try_get_reference", "view_rows", "view_columns", "get_reference_unchecked", "data_layout"] {
+                    hit(&format!("impl~MatrixRef<(T,Index)>~for~RecordMatrix<T,S>::{}", m));
+                }
+                hit("derive~Debug~for~RecordContainer");
+                if !format!("{:?}", c).contains("RecordContainer") {
+                    complain("debug-of-RecordContainer".into());
+                }
+                let (rows, cols) = (<RM<T> as MatrixRef<(T, Index)>>::view_rows(c), <RM<T> as MatrixRef<(T, Index)>>::view_columns(c));
+                if (rows, cols) != c.size() || rows != c.rows() || cols != c.columns() {
+                    complain("MatrixRef::view_rows/view_columns".into());
+                }
+                let expected: Vec<(T, Index)> = c.view().row_major_iter().collect();
+                for i in 0..rows {
+                    for j in 0..cols {
+                        let k = i * cols + j;
+                        let a = <RM<T> as MatrixRef<(T, Index)>>::try_get_reference(c, i, j).cloned();
+                        let b = unsafe { <RM<T> as MatrixRef<(T, Index)>>::get_reference_unchecked(c, i, j) }.clone();
+                        let same = |x: &(T, Index)| x.0.eqv(&expected[k].0) && x.1 == expected[k].1;
+                        if !a.as_ref().map(same).unwrap_or(false) || !same(&b) {
+                            complain(format!("MatrixRef::try_get_reference-at-{}", k));
+                        }
+                    }
+                }
+                if <RM<T> as MatrixRef<(T, Index)>>::try_get_reference(c, rows, 0).is_some() || <RM<T> as MatrixRef<(T, Index)>>::try_get_reference(c, 0, cols).is_some() {
+                    complain("MatrixRef::try_get_reference-out-of-range".into());
+                }
+                match <RM<T> as MatrixRef<(T, Index)>>::data_layout(c) {
+                    MLayout::RowMajor => "row_major".to_string(),
+                    MLayout::ColumnMajor => "column_major".to_string(),
+                    MLayout::Other => "other".to_string(),
+                }
+            }
         };
         format!("ok ## layout={}", l)
     }
@@ -2562,6 +2872,29 @@ where
 /// the `Display` of the iterator errors says which of the three cases it is
 fn iter_error_display_ok<T: Elt, const D: usize>(e: &easy_ml::differentiation::iterators::InvalidRecordIteratorError<'static, T, D>) -> bool {
     use easy_ml::differentiation::iterators::InvalidRecordIteratorError as E;
+    hit("impl~fmt::Display~for~InvalidRecordIteratorError<T,D>::fmt");
+    hit("derive~Clone~for~InvalidRecordIteratorError");
+    hit("derive~Debug~for~InvalidRecordIteratorError");
+    let copy = e.clone();
+    let as_error: &dyn std::error::Error = &copy;
+    if as_error.to_string() != format!("{}", e) {
+        complain("clone-or-error-trait-object-of-InvalidRecordIteratorError".into());
+    }
+    let dbg = format!("{:?}", copy);
+    let dbg_ok = match e {
+        E::Shape { .. } => dbg.starts_with("Shape"),
+        E::Empty => dbg.starts_with("Empty"),
+        E::InconsistentHistory(h) => {
+            hit("impl~fmt::Display~for~InconsistentHistory<T>::fmt");
+            hit("derive~Clone~for~InconsistentHistory");
+            hit("derive~Debug~for~InconsistentHistory");
+            let h2 = h.clone();
+            format!("{}", h2).starts_with("First history was") && format!("{:?}", h2).contains("InconsistentHistory") && dbg.starts_with("InconsistentHistory")
+        }
+    };
+    if !dbg_ok {
+        complain("debug-or-display-of-the-iterator-error".into());
+    }
     let text = format!("{}", e);
     match e {
         E::Shape { .. } => text.starts_with("Shape "),
@@ -2596,19 +2929,25 @@ where
     };
     let i: [usize; D] = to_array(idx);
     macro_rules! get {
-        ($a:expr) => {{
+        ($a:expr, $recv:expr) => {{
             let a = $a;
+            hit(&format!("TensorAccess<(T,Index),{}RecordTensor<T,S,D>,D>::{}", $recv, if form == "try" { "try_get_as_record" } else { "get_as_record" }));
             catch(|| if form == "try" { a.try_get_as_record(i) } else { Some(a.get_as_record(i)) })
         }};
     }
     match access {
-        "owned" => get!(TensorAccess::from(c.clone(), dims)),
-        "mut" => get!(TensorAccess::from(&mut *c, dims)),
+        "owned" => {
+            hit(CLONE_);
+            get!(TensorAccess::from(c.clone(), dims), "")
+        }
+        "mut" => get!(TensorAccess::from(&mut *c, dims), "&mut~"),
         _ => {
             if matches!(spec, ViewSpec::Own) {
-                get!(c.index())
+                hit("RecordTensor<T,S,D>::index");
+                get!(c.index(), "&")
             } else {
-                get!(c.index_by(dims))
+                hit("RecordTensor<T,S,D>::index_by");
+                get!(c.index_by(dims), "&")
             }
         }
     }
@@ -2708,6 +3047,11 @@ impl Runner {
         if toks.is_empty() {
             return "bad-op".into();
         }
+        if toks[0] == "api-report" {
+            // the routes (call sites standing for API items) never reached during this run
+            let missing: Vec<&str> = toks[1..].iter().filter(|r| !api::was_hit(r)).cloned().collect();
+            return format!("api-report n={} ## missing={}", toks.len() - 1, missing.join(";"));
+        }
         if toks[0] == "@" {
             self.case = Case::None;
             let n: usize = toks.get(2).and_then(|s| s.parse().ok()).unwrap_or(1);
@@ -2718,11 +3062,17 @@ impl Runner {
             };
             return "ok".into();
         }
-        match &mut self.case {
+        let answer = match &mut self.case {
             Case::None => "bad-op".into(),
             Case::Fp(c) => c.step(toks),
             Case::Rat(c) => c.step(toks),
             Case::F64(c) => without_numbers(c.step_lite(toks)),
+        };
+        // a comparison made inside the runner (trait access, iterator lengths, Debug / Clone of
+        // errors) failed
+        match api::take_complaint() {
+            Some(what) => format!("api-check-failed {}", what),
+            None => answer,
         }
     }
 }
